@@ -30,7 +30,7 @@ let hc_s = function
 let io_s = function
   | IoR1 -> "R1" | IoR2 -> "R2" | IoR3 -> "R3" | IoR4 -> "R4"
   | IoW1 r -> "W1" ^ b01 r | IoW2 r -> "W2" ^ b01 r | IoW3 r -> "W3" ^ b01 r
-  | IoSel (r, w) -> "Sel" ^ b01 r ^ b01 w
+  | IoSel (r, w) -> "Sel" ^ b01 r ^ b01 w | IoTrig (r, w) -> "Trig" ^ b01 r ^ b01 w | IoTrigL (r, w) -> "TrigL" ^ b01 r ^ b01 w
   | IoRecv ww -> "Recv" ^ b01 ww
   | IoRcvA (i, w) -> "RcvA" ^ items_s i ^ b01 w | IoRcv1 (i, w) -> "Rcv1" ^ items_s i ^ b01 w
   | IoRcv2 (i, w) -> "Rcv2" ^ items_s i ^ b01 w | IoRcvLoop (i, w) -> "RcvL" ^ items_s i ^ b01 w
@@ -167,13 +167,13 @@ let explore c nw maxsends sizes kinds maxstates errs =
    thread reaches them.  Answer: "OK fired=N compared=M quiescent=b c05=b kf=b io=.. ws=.."
    or "MISMATCH ev=K ..." *)
 let attr_s = function AWc -> "wc" | ACwf -> "cwf" | AConn -> "conn" | ATot -> "tot" | AReq -> "req" | ARq -> "rq"
-let lk_s = function LkO -> "o" | LkR -> "r" | LkD -> "d"
+let lk_s = function LkO -> "o" | LkR -> "r" | LkD -> "d" | LkT -> "t"
 let cv_s = function CvO -> "o" | CvQ -> "q"
 let label_s = function
   | LR a -> "R" ^ attr_s a | LW a -> "W" ^ attr_s a
   | LAcq l -> "Aq" ^ lk_s l | LTry l -> "Tr" ^ lk_s l | LRel l -> "Rl" ^ lk_s l
   | LWait c -> "Wt" ^ cv_s c | LWake c -> "Wk" ^ cv_s c | LNotify c -> "Nf" ^ cv_s c
-  | LSend -> "Sd" | LRecv -> "Rv" | LSelect -> "Sel" | LPull -> "Pull" | LAddTask -> "AddTask"
+  | LSend -> "Sd" | LRecv -> "Rv" | LSelect -> "Sel" | LTrigRead -> "TrigRead" | LPull -> "Pull" | LAddTask -> "AddTask"
   | LWrite -> "Write" | LDone -> "Done" | LMapDel -> "MapDel" | LClient -> "Client"
 let is_attr = function LR _ | LW _ -> true | _ -> false
 
